@@ -1,4 +1,4 @@
-__all__ = ["AppendOutput"]
+__all__ = ["AppendOutput", "UnsupportedOutputOrderError"]
 
 import os
 from dataclasses import dataclass
@@ -41,6 +41,10 @@ def _verif_default_array_size() -> Expression:
         if capacity:
             return IntegerLiteral(int(capacity))
     return default_array_size
+
+
+class UnsupportedOutputOrderError(NotImplementedError):
+    """The iteration order needs a sparse output layer that cannot be appended to in order."""
 
 
 @dataclass(frozen=True, slots=True)
@@ -205,7 +209,7 @@ class AppendOutput(Output):
                 )
                 return next_output, declarations, SourceBuilder()
             else:
-                raise NotImplementedError(
+                raise UnsupportedOutputOrderError(
                     "Encountered a sparse output layer preceded by a contraction layer or a later "
                     "output layer. This requires a hash table to store intermediate outputs, "
                     "which is not currently implemented."
